@@ -1,0 +1,44 @@
+//go:build verif
+
+// Contracts for package directchannel, read by /verif/govc. Comments only.
+package directchannel
+
+// ghost state of the emitter handed to the channel: number of payload events emitted, and the last one
+//@ ghost field emitCount(Iface) Int
+//@ ghost field lastEmit(Iface) Int
+//@ extern (berty.tech/go-orbit-db/iface.DirectChannelEmitter).Emit as (e).Emit(evt) (err)
+//@   modifies emitCount(e), lastEmit(e)
+//@   ensures emitCount(e) == old(emitCount(e)) + 1 && lastEmit(e) == evt
+
+// ghost: chunks written to a stream, in order
+//@ ghost field written(Iface) Seq<Slice<Int>>
+//@ extern (io.Writer).Write as (s).Write(p) (n, err)
+//@   modifies written(s)
+//@   ensures len(written(s)) == len(old(written(s))) + 1 && written(s)[len(old(written(s)))] == p
+//@   ensures forall j Int :: 0 <= j && j < len(old(written(s))) ==> written(s)[j] == old(written(s))[j]
+
+// a freshly opened stream has nothing written on it
+//@ extern (github.com/libp2p/go-libp2p/core/host.Host).NewStream as (h).NewStream(ctx, p, pids) (s, err)
+//@   ensures err == nil ==> s != nil && len(written(s)) == 0
+//@   modifies nothing
+
+// handleNewPeer: one frame per stream. Never panics whatever the length prefix says; a frame above the
+// limit is refused; at most one event is emitted, carrying exactly the announced number of bytes,
+// read in full, and nothing but the emitter is touched.
+//@ func (*directChannel).handleNewPeer
+//@   props C12 C20
+//@   flag nilcalls
+//@   requires d.emitter != nil && s != nil
+//@   ghost E0 := emitCount(d.emitter)
+//@   ensures emitCount(d.emitter) == E0 || emitCount(d.emitter) == E0 + 1
+//@   ensures length64 > DelimitedReadMaxSize ==> emitCount(d.emitter) == E0
+//@   ensures emitCount(d.emitter) == E0 + 1 ==> length64 <= DelimitedReadMaxSize && ptr(lastEmit(d.emitter), "iface.EventPubSubPayload") != nil && len(ptr(lastEmit(d.emitter), "iface.EventPubSubPayload").Payload) == length64
+//@   ensures emitCount(d.emitter) == E0 + 1 ==> fullReads(boxptr(reader, "bufio.Reader")) == old(fullReads(boxptr(reader, "bufio.Reader"))) + 1
+//@   modifies emitCount(d.emitter), lastEmit(d.emitter), fullReads
+
+// Send writes the length prefix then the payload, nothing else.
+//@ func (*directChannel).Send
+//@   props C20
+//@   ensures result == nil ==> len(written(stream)) == 2
+//@   ensures result == nil ==> written(stream)[1] == bytes
+//@   ensures result == nil ==> 1 <= len(written(stream)[0]) && len(written(stream)[0]) <= 10
